@@ -233,7 +233,7 @@ class Attribute(_BaseAttribute):
             data_attr_type = Attribute.Type(datatype)
             if not self._can_be_casted(data_attr_type, self.type):
                 raise Attribute.TypeNotMatchingError(value, datatype, self.type)
-            self._data[key] = value
+            self._data[key] = np.array(value, dtype=self.type.dtype).item() # the attribute's type, as the dense storage and as_array (True stayed a bool in a float attribute, 2**53+1 stayed exact, 2**64 entered an int attribute)
 
     def _expand(self, n : int):
         """Expands the storage capacity of the attributes. Adds `n` to self.n_elem
